@@ -6,6 +6,11 @@ MC_SUBCHECK(bundle)
   {
     using G = Bundle<SO3d, Eigen::Vector3d, SE2d>;
     c16::Harness<G> h("Bundle<SO3,T3,SE2>d");
+    h.addview("part<0>()", 0, 4, [](const auto & x) { return x.template part<0>().coeffs().eval(); });
+    h.addview("part<1>()", 4, 3, [](const auto & x) { return x.template part<1>().eval(); });
+    h.addview("part<2>()", 7, 4, [](const auto & x) { return x.template part<2>().coeffs().eval(); });
+    h.addview("part<2>().so2()", 9, 2, [](const auto & x) { return x.template part<2>().so2().coeffs().eval(); });
+    h.addview("part<2>().r2()", 7, 2, [](const auto & x) { return x.template part<2>().r2().eval(); });
     h.add("m.part<0>() = value#1.part<0>()", 0, 4, [](auto & x, const auto & p) { x.template part<0>() = p.g[1].template part<0>(); });
     h.add("m.part<0>() *= value#2.part<0>()", 0, 4, [](auto & x, const auto & p) { x.template part<0>() *= p.g[2].template part<0>(); });
     h.add("m.part<1>() = value#1.part<1>()", 4, 3, [](auto & x, const auto & p) { x.template part<1>() = p.g[1].template part<1>(); });
@@ -18,6 +23,12 @@ MC_SUBCHECK(bundle)
   {
     using G = Bundle<Bundle<SO2d, Eigen::Matrix<double, 1, 1>>, SE3d>;
     c16::Harness<G> h("Bundle<Bundle<SO2,T1>,SE3>d");
+    h.addview("part<0>()", 0, 3, [](const auto & x) { return x.template part<0>().coeffs().eval(); });
+    h.addview("part<0>().part<0>()", 0, 2, [](const auto & x) { return x.template part<0>().template part<0>().coeffs().eval(); });
+    h.addview("part<0>().part<1>()", 2, 1, [](const auto & x) { return x.template part<0>().template part<1>().eval(); });
+    h.addview("part<1>()", 3, 7, [](const auto & x) { return x.template part<1>().coeffs().eval(); });
+    h.addview("part<1>().so3()", 6, 4, [](const auto & x) { return x.template part<1>().so3().coeffs().eval(); });
+    h.addview("part<1>().r3()", 3, 3, [](const auto & x) { return x.template part<1>().r3().eval(); });
     h.add("m.part<0>() = value#1.part<0>()", 0, 3, [](auto & x, const auto & p) { x.template part<0>() = p.g[1].template part<0>(); });
     h.add("m.part<0>().part<0>() *= value#2.part<0>().part<0>()", 0, 2, [](auto & x, const auto & p) { x.template part<0>().template part<0>() *= c16::rpart<0>(c16::rpart<0>(p.g[2])); });
     h.add("m.part<0>().part<1>() *= 2", 2, 1, [](auto & x, const auto &) { x.template part<0>().template part<1>() *= 2; });
